@@ -1,4 +1,4 @@
-CONSTANTS Scope = "ext" OneByOne = FALSE Mutant = "none"
+CONSTANTS Scope = "ext" OneByOne = FALSE Mutant = "none" Pick = {}
 SPECIFICATION Spec
 INVARIANT TypeOK
 INVARIANT Inv_Fail
